@@ -59,6 +59,9 @@ type Result struct {
 
 var stageDump = os.Getenv("VERIF_STAGE_DUMP") == "1"
 
+// with VERIF_KEEP_ENTRY=1 the entry's JSON (what kfl.Apply is applied to) is kept in the result (C16's correspondence)
+var keepEntryEnv = os.Getenv("VERIF_KEEP_ENTRY") == "1"
+
 // StageDumpLimit bounds the size of the dumped maps of one item.
 const StageDumpLimit = 48 << 10
 
@@ -176,7 +179,7 @@ func Run(ext *api.Extension, item *api.OutputChannelItem, keepEntry bool) (res R
 	}) || len(res.Problems) > 0 {
 		return
 	}
-	if keepEntry {
+	if keepEntry || (keepEntryEnv && len(entryJSON) <= StageDumpLimit) {
 		res.EntryJSON = string(entryJSON)
 	}
 	res.Protocol = entry2.Protocol.Name + "/" + entry2.Protocol.Version + "/" + entry2.Protocol.Abbreviation
